@@ -367,6 +367,13 @@ func (t *itr) expr(e ast.Expr, pre *[]string) string {
 		return c
 	}
 	switch x := e.(type) {
+	case *ast.StarExpr:
+		if strings.HasPrefix(t.leanType(t.typeOf(x.X)), "Option (") {
+			// *p for an optional value: a nil pointer dereference panics
+			v := t.tmp("d")
+			*pre = append(*pre, fmt.Sprintf("let %s ← %s", v, t.expr(x.X, pre)))
+			return v
+		}
 	case *ast.ParenExpr:
 		return "(" + t.expr(x.X, pre) + ")"
 	case *ast.Ident:
@@ -827,6 +834,12 @@ func (t *itr) call(x *ast.CallExpr, pre *[]string, wantValue bool) string {
 	recvVal := t.expr(sel.X, pre)
 	tn := named.Obj().Name()
 	if tn == "Mask" {
+		if _, isPtr := t.typeOf(sel.X).(*types.Pointer); isPtr && strings.HasPrefix(t.leanType(t.typeOf(sel.X)), "Option (") {
+			// a method on *Mask held as an optional value: nil panics
+			dv := t.tmp("m")
+			*pre = append(*pre, fmt.Sprintf("let %s ← %s", dv, recvVal))
+			recvVal = dv
+		}
 		// regenerated pure Mask methods; Set / Reset mutate the receiver
 		fn := t.maskNS + ".Mask." + sel.Sel.Name
 		callS := fmt.Sprintf("(%s %s %s)", fn, recvVal, strings.Join(args, " "))
@@ -1519,6 +1532,29 @@ func (t *itr) stmts(list []ast.Stmt, ind string) []string {
 						continue
 					}
 					pre = append(pre, fmt.Sprintf("let %s := (%s).%d", id.Name, rv, i+1))
+				}
+				emit(pre)
+				return append(out, t.stmts(rest, ind)...)
+			}
+		}
+		if len(x.Lhs) > 2 && len(x.Rhs) == 1 {
+			if call, ok := x.Rhs[0].(*ast.CallExpr); ok {
+				// a, b, c, ... := f(...)
+				rv := t.call(call, &pre, true)
+				n := len(x.Lhs)
+				for i, l := range x.Lhs {
+					id, isId := l.(*ast.Ident)
+					if !isId {
+						return append(out, ind+t.fail("unsupported assignment shape"))
+					}
+					if id.Name == "_" {
+						continue
+					}
+					proj := strings.Repeat(".2", i)
+					if i < n-1 {
+						proj += ".1"
+					}
+					pre = append(pre, fmt.Sprintf("let %s := (%s)%s", id.Name, rv, proj))
 				}
 				emit(pre)
 				return append(out, t.stmts(rest, ind)...)
@@ -2223,11 +2259,12 @@ func genPools(repo string, tiny bool) (string, []string) {
 	t.usesEff = map[string]bool{"World.LoadEntities": true, "World.Reset": true, "World.createEntity": true, "World.createEntities": true,
 		"World.removeArchetype": true, "World.cleanupArchetype": true, "World.cleanupArchetypes": true, "World.RemoveEntity": true,
 		"World.createArchetype": true, "World.setRelation": true, "World.exchangeNoNotify": true, "World.removeEntities": true,
-		"World.newEntitiesNoNotify": true}
+		"World.newEntitiesNoNotify": true, "World.notifyExchange": true, "World.exchange": true}
 	t.reslice = map[string]bool{"World.createEntities": true}
 	t.ptrOption = true
 	t.joinIf = map[string]bool{"World.RemoveEntity": true, "World.createEntities": true, "World.createArchetype": true, "World.setRelation": true,
-		"World.exchangeNoNotify": true, "World.getExchangeMask": true, "World.removeEntities": true, "World.newEntitiesNoNotify": true}
+		"World.exchangeNoNotify": true, "World.getExchangeMask": true, "World.removeEntities": true, "World.newEntitiesNoNotify": true,
+		"World.notifyExchange": true, "World.exchange": true}
 	t.worldExt = map[string]string{"World.findOrCreateArchetype": "findOrCreateF"}
 	t.tokens["archetypeData"] = true
 	for k, v := range map[string]string{"archetype.SetPointer": "archSetPointerF", "archNode.CreateArchetype": "nodeCreateArchetypeF",
@@ -2238,7 +2275,7 @@ func genPools(repo string, tiny bool) (string, []string) {
 	t.structs["EntityEvent"] = true
 	t.effExt["archetype.Remove"] = "archRemoveF"
 	t.nilChecks = map[string]bool{}
-	for _, f := range []string{"World.newEntitiesNoNotify", "World.removeEntities", "World.getExchangeMask", "World.exchangeNoNotify", "World.createArchetype", "World.setRelation", "World.RemoveEntity", "World.removeArchetype", "World.cleanupArchetype", "World.cleanupArchetypes", "World.createEntity", "World.createEntities", "World.Has", "World.HasUnchecked", "World.Mask",
+	for _, f := range []string{"World.notifyExchange", "World.exchange", "World.newEntitiesNoNotify", "World.removeEntities", "World.getExchangeMask", "World.exchangeNoNotify", "World.createArchetype", "World.setRelation", "World.RemoveEntity", "World.removeArchetype", "World.cleanupArchetype", "World.cleanupArchetypes", "World.createEntity", "World.createEntities", "World.Has", "World.HasUnchecked", "World.Mask",
 		"World.relationError", "World.checkRelation", "World.getRelation", "World.getRelationUnchecked"} {
 		t.nilChecks[f] = true
 	}
@@ -2339,7 +2376,7 @@ func genPools(repo string, tiny bool) (string, []string) {
 		"World.createEntity", "World.createEntities", "World.Has", "World.HasUnchecked", "World.Mask",
 		"World.relationError", "World.checkRelation", "World.getRelation", "World.getRelationUnchecked",
 		"Entity.IsZero", "World.removeArchetype", "World.cleanupArchetype", "World.cleanupArchetypes", "World.RemoveEntity",
-		"World.createArchetype", "World.setRelation", "World.getExchangeMask", "World.exchangeNoNotify", "World.removeEntities", "World.newEntitiesNoNotify",
+		"World.createArchetype", "World.setRelation", "World.getExchangeMask", "World.exchangeNoNotify", "World.removeEntities", "World.newEntitiesNoNotify", "World.notifyExchange", "World.exchange",
 	}
 	// which functions need the uninterpreted-function parameters (directly or through a callee)
 	calls := map[string][]string{}
